@@ -77,4 +77,7 @@ theorem DELTA_eq : bytesLE ScalarRs.DELTA = spow ffG (2 ^ ScalarRs.S) := by deci
 `2·w + 1 = t`) -/
 theorem sqrt_tonelli_shanks_exponent_ok : checkTonelliExponent = true := by decide +kernel
 
+/-- every check that `Dalek.Model.ConstCheck.reportC17` (the list the driver prints) names succeeds -/
+theorem reportC17_all_ok : reportC17.all (fun nb => nb.2) = true := by decide +kernel
+
 end Dalek.Props.C17
